@@ -30,11 +30,11 @@ Theorem C07_source_tie_ops :
   (forall A B fuel i j res,
      src_IPSet_intersection_loop1 fuel (Z.of_nat (length A)) (Z.of_nat (length B)) A B res (Z.of_nat i) (Z.of_nat j) =
        inter_loop fuel (skipn i A) (skipn j B) res) /\
-  (forall A B fuel i j ranges res,
-     bind (src_IPSet_difference_loop1 fuel (Z.of_nat (length A)) (Z.of_nat (length B)) A B (Z.of_nat i) (Z.of_nat j) ranges res) (fin_diff A) =
+  (forall A B FA, (length A < FA)%nat -> forall fuel i j ranges res,
+     bind (src_IPSet_difference_loop1 fuel (Z.of_nat (length A)) (Z.of_nat (length B)) A B (Z.of_nat i) (Z.of_nat j) ranges res) (fin_diff A FA) =
        diff_loop fuel (skipn i A) (skipn j B) ranges res) /\
-  (forall A B fuel i j ranges,
-     bind (src_IPSet_symmetric_difference_loop1 fuel (Z.of_nat (length A)) (Z.of_nat (length B)) A B (Z.of_nat i) (Z.of_nat j) ranges) (fin_xor A B) =
+  (forall A B FA, (length A < FA)%nat -> forall FB, (length B < FB)%nat -> forall fuel i j ranges,
+     bind (src_IPSet_symmetric_difference_loop1 fuel (Z.of_nat (length A)) (Z.of_nat (length B)) A B (Z.of_nat i) (Z.of_nat j) ranges) (fin_xor A B FA FB) =
        symdiff_loop fuel (skipn i A) (skipn j B) ranges).
 Proof. exact C07_ops_tie_ok. Qed.
 Print Assumptions C07_source_tie_ops.
